@@ -161,6 +161,9 @@ func (c *Ctx) exec(fn *ssa.Function, args []Val, st0 *State, reach0 string, dept
 		bail("no body: %s", fn)
 	}
 	fr := &Frame{fn: fn, env: map[ssa.Value]Val{}, depth: depth, isRoot: depth == 0}
+	if depth == 0 && !c.specMode {
+		c.rootFrame = fr
+	}
 	for i, p := range fn.Params {
 		fr.env[p] = args[i]
 	}
@@ -426,11 +429,13 @@ func (c *Ctx) loopHead(fr *Frame, li *loopInfo, b *ssa.BasicBlock, st *State, re
 			st.locals[a] = c.freshLike(v, "hv_"+a.Comment)
 		}
 	}
-	if heapAll {
-		c.havocAll(st, reach)
-	} else {
-		c.bumpTop()
+	_ = heapAll
+	eff := newEffects()
+	c.regionEffects(eff, fr.fn, li.blocks, 0)
+	if eff.all {
+		c.notes["loop-havoc-all: "+eff.why]++
 	}
+	c.havocEffects(st, eff, reach)
 	// 3. assume invariants
 	env = c.contractEnvLocal(fr, st)
 	if spec != nil {
